@@ -219,7 +219,7 @@ def run_case(spec, idx, ctx):
         r = RATIO[lt] * (100.0 if kind.startswith("constant") else 1.0)
         f = dict(common, loss=lt, batch="full" if bs == J else ("one" if bs == 1 else "partial"))
         ctx.check(np.isfinite(L0) and np.isfinite(ref), "loss_not_finite", "L0=%r Lpert=%r" % (L0, ref), **f)
-        ctx.close(L0 / max(ref, 1e-300), r, "loss_at_truth_nonzero", track="%s:%s" % (lt, "constant" if kind.startswith("constant") else "no_shift"), detail=lambda: "%s loss(truth)=%.3e loss(perturbed obj)=%.3e loss(perturbed probe)=%.3e scene=%s" % (lt, L0, Lo, Lp, sc.describe()), **f)
+        ctx.close(L0 / max(ref, 1e-300), r, "loss_at_truth_nonzero", track="%s:%s" % (lt, ("constant" if kind.startswith("constant") else "no_shift") + (":clipped(known finding)" if clip == "on" else "")), detail=lambda: "%s loss(truth)=%.3e loss(perturbed obj)=%.3e loss(perturbed probe)=%.3e scene=%s" % (lt, L0, Lo, Lp, sc.describe()), **f)
         ctx.check(L0 < Lo and L0 < Lp, "truth_not_minimum", lambda: "%s loss(truth)=%.3e not below perturbed (%.3e, %.3e)" % (lt, L0, Lo, Lp), **f)
         worst_ratio = max(worst_ratio, L0 / max(ref, 1e-300))
         if Lc is not None:
@@ -244,7 +244,7 @@ def run_case(spec, idx, ctx):
             ro = float(torch.linalg.vector_norm(go) / torch.linalg.vector_norm(go_po).clamp_min(1e-300))
             rp = float(torch.linalg.vector_norm(gp) / torch.linalg.vector_norm(gp_pp).clamp_min(1e-300))
             gt = 1e-3 * (10.0 if kind.startswith("constant") else 1.0)
-            ctx.close(max(ro, rp), gt, "truth_not_stationary", track="%s:%s" % (lt, "constant" if kind.startswith("constant") else "no_shift"), detail=lambda: "%s |grad_obj(truth)|/|grad_obj(pert)|=%.2e |grad_probe(truth)|/|grad_probe(pert)|=%.2e scene=%s" % (lt, ro, rp, sc.describe()), **dict(common, loss=lt))
+            ctx.close(max(ro, rp), gt, "truth_not_stationary", track="%s:%s" % (lt, ("constant" if kind.startswith("constant") else "no_shift") + (":clipped(known finding)" if clip == "on" else "")), detail=lambda: "%s |grad_obj(truth)|/|grad_obj(pert)|=%.2e |grad_probe(truth)|/|grad_probe(pert)|=%.2e scene=%s" % (lt, ro, rp, sc.describe()), **dict(common, loss=lt))
     frac = np.abs(sc.positions_px - np.rint(sc.positions_px))
     nfrac = int((frac.max(axis=1) > 1e-3).sum())
     par = "".join("o" if n % 2 else "e" for n in sc.roi) + ("sq" if sc.roi[0] == sc.roi[1] else "ns")
